@@ -82,11 +82,11 @@ def flat_batch(ts, k):
     return np.concatenate([util.np64(t).reshape(k, -1) for t in ts], axis=1)
 
 
-def forward_dir(cell, seed):
+def forward_dir(cell, seed, mod=None, tag=''):
     import torch
     out = []
     kf = kf_for(cell)
-    mod = c01.build(cell)
+    mod = mod if mod is not None else c01.build(cell)
     sp = cell['shape']
     n_in = int(np.prod(sp))
     ok, y = util.call_lib(mod, util.impulses(sp))
@@ -101,7 +101,7 @@ def forward_dir(cell, seed):
     tol = 1e-11 * max(G, 1.0)
     sizes = [int(np.prod(o.shape[1:])) for o in outs]
     for point in ('random', 'origin'):
-        case = {'cell': cell, 'check': 'jacobian', 'point': point}
+        case = {'cell': cell, 'check': tag + 'jacobian', 'point': point}
         xb = (util.make_input('randn', [n_out, 1] + sp, seed) if point == 'random'
               else torch.zeros([n_out, 1] + sp, dtype=torch.float64)).requires_grad_(True)
         ok, yb = util.call_lib(mod, xb)
@@ -185,11 +185,11 @@ def localise_forward(cell, kf, Jt, A, tol):
                 'does not touch' % err.max(), ratio=float(err.max()) / tol)]
 
 
-def inverse_dir(cell, seed):
+def inverse_dir(cell, seed, inv=None, tag=''):
     import torch
     out = []
     kf = kf_for(cell)
-    inv = c10.build(cell)
+    inv = inv if inv is not None else c10.build(cell)
     J = cell['J']
     lo, det = c10.pyramid_shapes(cell)
     ncoef = int(np.prod(lo)) + sum(int(np.prod(d)) * (1 if cell['dim'] == 1 else 3) for d in det)
@@ -210,7 +210,7 @@ def inverse_dir(cell, seed):
     offs = np.cumsum([0] + sizes)
     # full Jacobian, all arguments requiring grad, two points
     for point in ('random', 'origin'):
-        case = {'cell': cell, 'check': 'jacobian', 'point': point}
+        case = {'cell': cell, 'check': tag + 'jacobian', 'point': point}
         mk = (lambda s, i: util.make_input('randn', [n_out, 1] + s, seed + i)) if point == 'random' else \
             (lambda s, i: torch.zeros([n_out, 1] + s, dtype=torch.float64))
         args = [mk(s, i).requires_grad_(True) for i, s in enumerate(shapes)]
@@ -252,8 +252,10 @@ def inverse_dir(cell, seed):
                                    % e2, ratio=float(e2) / tol))
     # every requires-grad pattern
     pats = [p for p in itertools.product([False, True], repeat=J + 1) if any(p)]
+    if tag:
+        pats = pats[-1:]
     for pat in pats:
-        case = {'cell': cell, 'check': 'subset', 'requires_grad': list(pat)}
+        case = {'cell': cell, 'check': tag + 'subset', 'requires_grad': list(pat)}
         args = [util.make_input('randn', [2, 2] + s, seed + 20 + i).requires_grad_(bool(pat[i]))
                 for i, s in enumerate(shapes)]
         ok, yb = util.call_lib(inv, (args[0], args[1:]))
@@ -419,9 +421,52 @@ def drain_fn(cell):
     return out
 
 
+SAME_LENGTH = {}
+
+
+def same_length_other(wave):
+    """another wavelet with the same filter length (for the in-place buffer reload history)"""
+    if not SAME_LENGTH:
+        for w in refs.all_wavelets():
+            SAME_LENGTH.setdefault(refs.flen(w), []).append(w)
+    c = [w for w in SAME_LENGTH[refs.flen(wave)] if w != wave and pywt.Wavelet(w).dec_lo != pywt.Wavelet(wave).dec_lo]
+    return c[0] if c else None
+
+
+def reload_history(cell, seed):
+    """history: use the module, overwrite its filter buffers in place with other taps of the same
+    length (load_state_dict), use it again - forward and backward must both follow the new taps"""
+    import torch
+    other = same_length_other(cell['wave'])
+    if other is None:
+        return []
+    cell2 = dict(cell, wave=other)
+    build = c01.build if cell['dir'] == 'forward' else c10.build
+    mod, donor = build(cell), build(cell2)
+    # first use (forward + backward) with the original taps
+    try:
+        if cell['dir'] == 'forward':
+            x = util.make_input('randn', [1, 2] + cell['shape'], seed).requires_grad_(True)
+            y = mod(x)
+            sum(o.sum() for o in util.flat_outputs(y)).backward()
+        else:
+            yl, yh = c10.make_pyramid(dict(cell, N=1, C=2), 'randn', seed)
+            yl.requires_grad_(True)
+            mod((yl, yh)).sum().backward()
+    except Exception:
+        return []
+    mod.load_state_dict(donor.state_dict())
+    cell2 = dict(cell2, reloaded_from=cell['wave'])
+    if cell['dir'] == 'forward':
+        return forward_dir(cell2, seed, mod=mod, tag='reload-')
+    return inverse_dir(cell2, seed, inv=mod, tag='reload-')
+
+
 def run_cell(cell, seed):
     del _FN['log'][:]
     out = forward_dir(cell, seed) if cell['dir'] == 'forward' else inverse_dir(cell, seed)
+    if cell['mode'] in ('zero', 'periodization') and not any(n % 2 for n in cell['shape']):
+        out.extend(reload_history(cell, seed))
     fn = drain_fn(cell)
     # keep one Function-level verdict per (class, status) per cell to bound the evidence size
     seen = set()
